@@ -81,10 +81,11 @@ def make_tables(r, genes, structure, planted, noise):
         if not sites:
             tables.append(table)
             continue
-        lo, hi = min(sites) - 4, max(sites) + 4
-        # reference reads at every catalogued site (the same set of sites in both builds) and around the planted ones
-        for p in sorted(set(range(lo, hi + 1)) | {q for q, _ in g.mutations} | {q + 1 for q, _ in g.mutations} | {q - 1 for q, _ in g.mutations}):
-            pc = cn_for(g, structure).position_cn(p)
+        # reference reads at every catalogued site (the same set of sites in both builds) and around the observed ones
+        cnsol = cn_for(g, structure)
+        around = {q + k_ for q in sites for k_ in range(-4, 5)}
+        for p in sorted(around | {q for q, _ in g.mutations} | {q + 1 for q, _ in g.mutations} | {q - 1 for q, _ in g.mutations}):
+            pc = cnsol.position_cn(p)
             var_here = sum(len(v) for o, v in table.get(p, {}).items() if o[:3] != "ins")
             refc = max(0, d * pc - var_here)
             if refc > 0:
@@ -262,7 +263,7 @@ def tie(ctx):
     stats = collections.Counter()
     distinct = set()
     samples = []
-    n = 120 if quick else 1500
+    n = 240 if quick else 2500
     for i in range(n):
         gd = pool[i % len(pool)]
         genes = load_pair(gd)
@@ -274,6 +275,8 @@ def tie(ctx):
             stats["skipped_unmapped"] += 1
             continue
         pdesc = {"gap": r.choice(["0", "0", "0.1"])}
+        if quick and gd["kind"] == "shipped":
+            pdesc = {"gap": "0"}   # enumerating near-optimal combinations of a shipped catalogue is left to the thorough tier
         inp = {"db": gd if gd["kind"] != "generated" else gd, "structure": structure, "planted": planted, "profile": pdesc, "index": i}
         try:
             ra = run_stage(genes[0], tables[0], structure, pdesc)
@@ -284,11 +287,14 @@ def tie(ctx):
         va, vb = result_view(genes[0], ra), result_view(genes[1], rb)
         stats["stage_pairs"] += 1
         stats["opposite_strand"] += genes[0].strand != genes[1].strand
+        import c09
+        boundary = bool(c09.boundary_insertions(genes[0]) | c09.boundary_insertions(genes[1]))
+        btag = ":variant_on_region_boundary" if boundary else ""
         if va[0] != vb[0]:
-            violations.append({"why": f"major solutions differ between builds: {va[0][:2]} vs {vb[0][:2]}", "input": inp, "signature": "c13:major_differs"})
+            violations.append({"why": f"major solutions differ between builds: {va[0][:2]} vs {vb[0][:2]}", "input": inp, "signature": "c13:major_differs" + btag})
         elif va[1] != vb[1]:
-            pending_minor = {"why": f"minor solutions differ between builds: {va[1][:1]} vs {vb[1][:1]}", "input": inp, "signature": "c13:minor_differs",
-                             "tied": [round(x[1], 3) for x in va[1]] == [round(x[1], 3) for x in vb[1]]}
+            pending_minor = {"why": f"minor solutions differ between builds: {va[1][:1]} vs {vb[1][:1]}", "input": inp, "signature": "c13:minor_differs" + btag,
+                             "tied": sorted(round(x[1], 3) for x in va[1]) == sorted(round(x[1], 3) for x in vb[1])}
         else:
             pending_minor = None
         if va[0] != vb[0]:
@@ -298,7 +304,10 @@ def tie(ctx):
             fam["major_models_isomorphic"]["cases"] += 1
             diffs = lp.compare(canon_major(genes[0], ra["msnap"]), canon_major(genes[1], rb["msnap"]))
             if diffs:
-                fam["major_models_isomorphic"]["disagreements"].append({"why": "major models of the two builds are not renamings of each other: " + diffs[0], "input": inp})
+                if boundary:
+                    violations.append({"why": "major models of the two builds differ: " + diffs[0], "input": inp, "signature": "c13:major_differs" + btag})
+                else:
+                    fam["major_models_isomorphic"]["disagreements"].append({"why": "major models of the two builds are not renamings of each other: " + diffs[0], "input": inp})
         for ca, cb in zip(ra["calls"], rb["calls"]):
             if ca["snap"] is None or cb["snap"] is None or ca["major"] != cb["major"]:
                 continue
@@ -315,7 +324,10 @@ def tie(ctx):
                         diffs.append(f"objective coefficient of {k}: {oa.get(k, 0)} vs {ob.get(k, 0)}")
                         break
             if diffs:
-                fam["minor_models_isomorphic"]["disagreements"].append({"why": "minor models of the two builds are not renamings of each other: " + diffs[0], "input": inp})
+                if boundary:
+                    violations.append({"why": "minor models of the two builds differ: " + diffs[0], "input": inp, "signature": "c13:minor_differs" + btag})
+                else:
+                    fam["minor_models_isomorphic"]["disagreements"].append({"why": "minor models of the two builds are not renamings of each other: " + diffs[0], "input": inp})
         if pending_minor:
             iso_after = len(fam["minor_models_isomorphic"]["disagreements"]) + len(fam["major_models_isomorphic"]["disagreements"])
             if pending_minor.pop("tied") and iso_after == iso_before:
@@ -331,7 +343,7 @@ def tie(ctx):
     d = sim.scratch_dir()
     try:
         gens = [gd for gd in pool if gd["kind"] == "generated"]
-        for k in range(10 if quick else 80):
+        for k in range(14 if quick else 100):
             gd = gens[k % len(gens)]
             genes = load_pair(gd)
             ga = genes[0]
@@ -383,11 +395,17 @@ def tie(ctx):
             stats["pipeline_pairs"] += 1
             if outs[0] != outs[1]:
                 sig = "c13:pipeline_differs"
+                import c01
+                gap_ = c01.min_indel_gap(genes[0], copies)
+                if gap_ is not None and gap_ <= c01.CLOSE_INDEL_GAP:
+                    sig = "c13:pipeline_differs:close_indels"
                 noscore = [[(x[0],) + tuple(x[2:]) for x in o] if isinstance(o, list) else o for o in outs]
                 def norm_name(nm):
                     return " ".join("+".join([t.split("+")[0]] + sorted(t.split("+")[1:])) if "+" in t and len(t) > 1 else t for t in nm.split(" "))
                 renamed = [[(norm_name(x[0]),) + tuple(x[1:]) for x in o] if isinstance(o, list) else o for o in outs]
-                if renamed[0] == renamed[1]:
+                if sig.endswith("close_indels"):
+                    pass
+                elif renamed[0] == renamed[1]:
                     sig = "c13:order_of_added_variants_in_name"
                 elif noscore[0] == noscore[1] and any(shiftable_indel(genes[0], m) for a, mi in copies for m in sim.copy_variants(genes[0], a, mi)):
                     sig = "c13:score_differs_indel_in_repeat"
